@@ -29,8 +29,9 @@ def run(prop, tier, seed, scratch, t0):
     nsingles = sum(1 for ln in r["out"].splitlines() if ln.startswith('"{') and ln.count(",") < 40 and '\\",\\"' not in ln.split("seq")[1])
     r["out"] = ""
     tl.append(r)
+    ndep = sum(1 for ln in r["out"].splitlines() if ln.startswith('"{') and 'dep\\":true' in ln)   # pairs that are always run
     pairs = 250 if tier == "quick" else 6000
-    total = 2 * (nsingles + pairs)
+    total = 2 * (nsingles + ndep + min(pairs, nall - nsingles - ndep))
     results, crashes, logged = vlib.run_supervised(binary, "TestAdversary", dict(VERIF_CASES=cases, VERIF_SEED=seed, VERIF_PAIRS=pairs),
                                                    scratch, "adversary", total, "C12", timeout=6000)
     viol = list(crashes)
